@@ -2,8 +2,8 @@ package kernel
 
 import (
 	"encoding/json"
-	mathrand "math/rand"
 	"fmt"
+	mathrand "math/rand"
 	"os"
 	"runtime"
 	"runtime/debug"
@@ -307,6 +307,12 @@ func WorkerMain(t *testing.T, e *Engine) {
 		s := runOne(t, e, prop, cfg, rt)
 		account(s)
 		r := report(tf.Idx, s, true)
+		for _, kv := range s.KnownHits() {
+			kr := r
+			kr.Violation = kv
+			kr.Trace = nil
+			out.Known = append(out.Known, kr)
+		}
 		if s.Failed() != nil {
 			out.Failure = &r
 		} else {
